@@ -138,6 +138,28 @@ def check_box(spec):
     return res
 
 
+def _known_retyped_composite(sub, spec, fail):
+    """F38 (see C05): memoizing evaluation shares one cache entry between composite
+    sub-expressions that are == but differ in a constant's type (2*x and 2.0*x)."""
+    if "Cached" not in fail.detail and "evaluate" not in fail.detail:
+        return False
+    if fail.kind not in ("value-mismatch", "unexpected-exception", "value-instead-of-error",
+                         "wrong-exception") and not fail.kind.startswith("unexpected-exception"):
+        return False
+    e = build(spec["expr"])
+    seen = {}
+    for _, n in walk.occurrences(e):
+        if not walk.children(n):
+            continue
+        k = (type(n).__name__, repr(walk.key(n, strict=False)))
+        sk = repr(walk.key(n, strict=True))
+        if seen.setdefault(k, sk) != sk:
+            return True
+    return False
+
+
+KNOWN = {"F38c02": _known_retyped_composite}
+
 CHECKS = {"eval": check_eval, "box": check_box}
 
 
